@@ -98,11 +98,15 @@ void do_blank_lines()
          LOG_FMT(LBLANK, "%s(%d): prev orig line is %zu, prev->Text() '%s', prev->GetType() is %s\n",
                  __func__, __LINE__, pc->GetOrigLine(),
                  prev->Text(), get_token_name(prev->GetType()));
+      }
 
-         if (prev->Is(CT_IGNORED))
-         {
-            continue;
-         }
+      // a line break next to a line of a disabled region belongs to the region:
+      // look at the chunks on both of its sides, not past a comment (the one
+      // with the enable marker lies outside)
+      if (  pc->GetPrev()->Is(CT_IGNORED)
+         || pc->GetNext()->Is(CT_IGNORED))
+      {
+         continue;
       }
       Chunk *next = pc->GetNext();
       Chunk *pcmt = pc->GetPrev();
